@@ -102,27 +102,52 @@ Definition opt_eqb (a b : option Z) : bool :=
   match a, b with Some x, Some y => x =? y | None, None => true | _, _ => false end.
 Definition config_eqb (a b : config) : bool := forallb (fun g => opt_eqb (a g) (b g)) cfields.
 
-(* apply_config (commands/config.rs): result, configuration files written by save_config
-   (oldest first), and repo.config() afterwards *)
+(* ---------------------------------------------------------------- what is stored *)
+
+(* the `config` files of a repository: cold part (= the only part of a plain repository) and,
+   for hot/cold repositories, the copy in the hot part *)
+Record store := mkstore { st_cold : option config; st_hot : option config }.
+Definition empty_store : store := mkstore None None.
+
+(* body of save_config_hot inside `if let Some(hot_be) = repo.be_hot` *)
+Fixpoint run_hot_stmts (l : list sstmt) (c : config) (st : store) : store :=
+  match l with
+  | [] => st
+  | SMarkHot v :: r => run_hot_stmts r (upd c C_is_hot v) st
+  | SWriteCold :: r => run_hot_stmts r c (mkstore (Some c) (st_hot st))
+  | SWriteHot :: r => run_hot_stmts r c (mkstore (st_cold st) (Some c))
+  | SCallHot :: r => run_hot_stmts r c st
+  end.
+(* body of save_config; hot = repo.be_hot.is_some() *)
+Fixpoint run_save (hot : bool) (l : list sstmt) (c : config) (st : store) : store :=
+  match l with
+  | [] => st
+  | SMarkHot v :: r => run_save hot r (upd c C_is_hot v) st
+  | SWriteCold :: r => run_save hot r c (mkstore (Some c) (st_hot st))
+  | SWriteHot :: r => run_save hot r c (mkstore (st_cold st) (Some c))
+  | SCallHot :: r => run_save hot r c (if hot then run_hot_stmts save_config_hot_stmts c st else st)
+  end.
+Definition save_config (hot : bool) (c : config) (st : store) : store := run_save hot save_config_stmts c st.
+
+(* apply_config (commands/config.rs) on an open repository: mem = repo.config(), st = the stored
+   files; returns the stored files, repo.config() afterwards and the result *)
 Inductive cfg_result := RChanged | RSame | RRefused (e : N) | RPanic.
-Definition apply_config (o : opts) (stored : config) : list config * config * cfg_result :=
-  if opt_eqb (stored C_append_only) (Some 1) && negb (opt_eqb (o O_set_append_only) (Some 0))
-  then ([], stored, RRefused E_APPEND_ONLY)
-  else match apply_mut o stored with
+Definition apply_config (hot : bool) (o : opts) (mem : config) (st : store) : store * config * cfg_result :=
+  if opt_eqb (mem C_append_only) (Some 1) && negb (opt_eqb (o O_set_append_only) (Some 0))
+  then (st, mem, RRefused E_APPEND_ONLY)
+  else match apply_mut o mem with
        | (new, Done) =>
-           if config_eqb new stored then ([], stored, RSame)
-           else ([upd new C_is_hot None], new, RChanged)
-       | (_, Refused e) => ([], stored, RRefused e)
-       | (_, Panic) => ([], stored, RPanic)
+           if config_eqb new mem then (st, mem, RSame)
+           else (save_config hot new st, new, RChanged)
+       | (_, Refused e) => (st, mem, RRefused e)
+       | (_, Panic) => (st, mem, RPanic)
        end.
 
-(* a sequence of configuration changes against one repository: the list of files written *)
-Fixpoint apply_configs (l : list opts) (stored : config) : list config * config :=
+(* a sequence of configuration changes against one open repository *)
+Fixpoint apply_configs (hot : bool) (l : list opts) (mem : config) (st : store) : store * config :=
   match l with
-  | [] => ([], stored)
-  | o :: r =>
-      let '(w, s', _) := apply_config o stored in
-      let '(w', s'') := apply_configs r s' in (w ++ w', s'')
+  | [] => (st, mem)
+  | o :: r => let '(st', mem', _) := apply_config hot o mem st in apply_configs hot r mem' st'
   end.
 
 (* init (commands/init.rs): ConfigFile::new(INIT_VERSION, id, poly) then apply *)
@@ -132,6 +157,33 @@ Definition new_config (id poly : Z) : config := fun g =>
   else if N.eqb g C_chunker_polynomial then Some poly
   else None.
 Definition init (o : opts) (id poly : Z) : config * outcome := apply_mut o (new_config id poly).
+
+(* Repository::init on a plain (hot = false) or hot/cold repository: the stored files and the
+   config of the repository it returns.  The hot marker is put on the local config before `apply`
+   and/or after the files are written, as the source says now. *)
+Definition mark_hot (b : bool) (c : config) : config := if b then upd c C_is_hot (Some 1) else c.
+Definition init_repo (hot : bool) (o : opts) (id poly : Z) : store * config * outcome :=
+  match apply_mut o (mark_hot (hot && init_marks_hot_before_apply) (new_config id poly)) with
+  | (c, Done) => (save_config hot c empty_store, mark_hot (hot && init_marks_hot_after_write) c, Done)
+  | (c, r) => (empty_store, c, r)
+  end.
+
+(* the ways a user can open the repository: both parts (`open` with repo_hot), the cold part
+   alone (`open` without repo_hot; the only way for a plain repository), `open_only_cold` *)
+Inductive how := OpenBoth | OpenColdAlone | OpenOnlyCold.
+Definition how_has_hot (h : how) : bool := match h with OpenColdAlone => false | _ => true end.
+(* the config `open_may_use_hot` passes to open_raw *)
+Definition open_config (h : how) (st : store) : option config :=
+  match h with
+  | OpenBoth => st_hot st
+  | OpenColdAlone => st_cold st
+  | OpenOnlyCold => match st_cold st with
+                    | Some c => Some (mark_hot open_only_cold_marks_hot c)
+                    | None => None
+                    end
+  end.
+(* open_raw refuses when `config.is_hot == Some(true)` and the presence of a hot part disagree *)
+Definition open_raw_ok (c : config) (has_hot : bool) : bool := Bool.eqb (opt_eqb (c C_is_hot) (Some 1)) has_hot.
 
 (* ---------------------------------------------------------------- chunker parameters *)
 
